@@ -110,4 +110,50 @@ pub fn run(rep: &mut Report, tier: &str, seed: u64) {
         }
     }
     rep.count_n("regex-oracle-questions", table.rx_asked + table.rp_asked);
+    locality_stream(rep, tier, seed);
+}
+
+/// Lazy evaluation runs scan subjects, conditions and loop sources eagerly because the checker certified them
+/// local; C02 quantifies over ACCEPTED programs, so what is accepted is part of the property. This stream offers
+/// programs in which a value depending on a live scoped variable reaches such a place. They must be rejected;
+/// when one is accepted, both modes run on sources with several matches and must agree like any other program.
+fn locality_stream(rep: &mut Report, tier: &str, seed: u64) {
+    let n = if tier == "thorough" { 1500 } else { 150 };
+    let root = Rng::new(seed ^ 0x10ca1);
+    for i in 0..n {
+        let mut r = root.fork(i as u64);
+        let (text, form) = crate::gen::dsl::live_nonlocal_program(&mut r);
+        match load(&text) {
+            Ok(Err(_)) => rep.count("locality-stream:rejected-as-required"),
+            Err(()) => rep.fail("impl-panic", "C02 loading a program of the locality stream panics", true, json!({"tsg": text})),
+            Ok(Ok(file)) => {
+                rep.count(&format!("locality-stream:ACCEPTED:{}", form));
+                for ti in 0..3 {
+                    let source = gen_source(&mut r, ti == 1, false);
+                    let info = crate::tree::TreeInfo::new(&source.tree);
+                    let mut results = Vec::new();
+                    for lazy in [false, true] {
+                        let cfg = RunCfg { lazy, globals: vec![], outer_globals: vec![], debug: None, cancel_at: None };
+                        let ir = run_impl(&file, &source.tree, &source.src, &info, &cfg);
+                        results.push((outcome_class(&ir.outcome), ir));
+                    }
+                    let (sc, sr) = &results[0];
+                    let (lc, lr) = &results[1];
+                    let replay = json!({"tsg": text, "source": source.src, "form": form,
+                        "strict": impl_as_result(sr).pretty(), "lazy": impl_as_result(lr).pretty()});
+                    if sc == "panic" || lc == "panic" {
+                        rep.fail("impl-panic", &format!("C02 execution of an accepted locality-stream program panics ({} / {})", sc, lc), true, replay);
+                    } else if sc == "ok" && lc != "ok" {
+                        rep.fail("direct", &format!("C02 strict succeeds, lazy fails with {} [accepted {}: a non-local value certified local]", lc, form), true, replay);
+                    } else if sc == "ok" && isomorphic(sr.graph.as_ref().unwrap(), lr.graph.as_ref().unwrap()) == Some(false) {
+                        rep.fail("direct", &format!("C02 strict and lazy graphs are not isomorphic [accepted {}]", form), true, replay);
+                    } else if order_independent(sc) && lc == "ok" {
+                        rep.fail("direct", &format!("C02 strict fails with order-independent {}, lazy succeeds [accepted {}]", sc, form), true, replay);
+                    } else {
+                        rep.count("locality-stream:accepted-and-modes-agree");
+                    }
+                }
+            }
+        }
+    }
 }
